@@ -128,3 +128,60 @@ func SharedSK() {
 	}
 	vx.Reach("C20.shared_end")
 }
+
+// SharedSKConcurrent: two goroutines (two sessions, two partitions) of one factory need the same system key at the
+// same time - first on a cold factory, then again after the revoke-check interval. Under every schedule the KMS
+// unwraps the system key at most once per interval and its record is read once.
+func SharedSKConcurrent() {
+	e := env.New()
+	polc := env.Policies[1]
+	// another process created the keys earlier
+	f0 := e.Factory(e.Policy(polc, env.CacheDefault))
+	t0, _ := vx.Now()
+	vx.ClockFreeze(true)
+	parts := []string{"p0", "p1"}
+	recs := make([]*ae.DataRowRecord, len(parts))
+	for i, p := range parts {
+		s, _ := f0.GetSession(p)
+		r, err := s.Encrypt(env.Ctx, []byte{byte(50 + i)})
+		vx.Assert("C20.seed_ok", err == nil)
+		recs[i] = r
+		s.Close()
+	}
+	f0.Close()
+	f := e.Factory(e.Policy(polc, vx.Choice("cache", vx.Param("caches"))))
+	sess := make([]*ae.Session, len(parts))
+	for i, p := range parts {
+		sess[i], _ = f.GetSession(p)
+	}
+	round := func(tag string) {
+		d0, l0 := e.KMS.Decs, e.Store.Loads
+		done := make(chan bool, len(parts))
+		for i := range parts {
+			go func(i int) {
+				out, err := sess[i].Decrypt(env.Ctx, *recs[i])
+				done <- err == nil && len(out) == 1 && out[0] == byte(50+i)
+			}(i)
+		}
+		for range parts {
+			ok := <-done
+			vx.Assert("C20.concurrent_decrypt_ok", ok)
+		}
+		vx.Assert("C20.sk_unwrapped_at_most_once_per_interval_concurrently", e.KMS.Decs-d0 <= 1)
+		// one read per key: the two intermediate keys and the one system key
+		vx.Assert("C20.each_key_record_read_once", e.Store.Loads-l0 <= 3)
+		vx.Reach("C20.concurrent_" + tag)
+	}
+	round("cold")
+	// same instant again: everything is cached
+	d0, m0 := e.KMS.Decs, e.Store.Calls()
+	round("warm")
+	vx.Assert("C20.concurrent_warm_no_external_calls", e.KMS.Decs == d0 && e.Store.Calls() == m0)
+	// after the interval every entry is stale at once
+	vx.ClockFreeze(false)
+	vx.ClockMin(t0 + secs(polc.Revoke) + 1)
+	vx.Now()
+	vx.ClockFreeze(true)
+	round("stale")
+	vx.Reach("C20.concurrent_end")
+}
